@@ -190,7 +190,9 @@ func (mv mapValue) IndexValue(iv Value) Value {
 	mr := reflect.ValueOf(mv.value)
 	ir := reflect.ValueOf(iv.Interface())
 	kt := mr.Type().Key()
-	if ir.IsValid() && ir.Type().ConvertibleTo(kt) && ir.Type().Comparable() {
+	// a struct type is comparable even when an interface-typed field holds a
+	// slice or a map; only the value says whether it can be hashed
+	if ir.IsValid() && ir.Type().ConvertibleTo(kt) && ir.Comparable() {
 		er := mr.MapIndex(ir.Convert(kt))
 		if er.IsValid() {
 			return ValueOf(er.Interface())
